@@ -49,9 +49,14 @@ def declare(rep):
     rep.rule("C10.out", "result component q is exactly component q of the queried backend value", floor=16)
 
 
-def run(rep, tier):
+def harnesses(tier):
     Ns = (1, 2, 3) if tier == "quick" else (1, 2, 3, 4)
     hs = [make(N, s) for N in Ns for s in ("size_t", "unsigned", "int", "float", "double")]
+    return hs
+
+
+def run(rep, tier):
+    hs = harnesses(tier)
     harness.build(hs, "c10")
     orders = list(ir.weak_orderings(3))
     for h in hs:
